@@ -164,14 +164,15 @@ def KState.initFileRow (s : KState) (k : Key) (state : FileState) (existed : Boo
   let s1 ← s.writeInitialFile k (s.keptState k state existed) existed
   if s.keptState k state existed = .built then s1.markFileOutdated k else pure s1
 
-/-- `Step.initialize_row`: DELETE + INSERT of the step row; satellites survive. -/
+/-- `Step.initialize_row`: DELETE + INSERT of the step row and DELETE of its `env_var` rows; the
+other satellites (hash, resources, nglobs) survive. -/
 def KState.initStepRow (s : KState) (k : Key) (i : StepInit) : KState :=
   s.modify k fun n =>
     { n with
       sstate := .pending, need := i.need, deferred := false, deferCount := 0, holding := 0,
       shell := i.shell, safe := i.safe, checkSafe := !i.safe, safeNH := i.safe, impliedNeed := i.need,
       tail := 1, checkAfter := true, hasHash := n.shash.isSome, ready := false, checkReady := true,
-      overrides := [] }
+      overrides := [], envs := [] }
 
 def KState.initRow (s : KState) (k : Key) (init : Init) (existed : Bool) : M KState :=
   match init with
